@@ -33,6 +33,7 @@ BUNDLES = {
     "lowlevel": [suites.lowlevel_suite],
     "multi": [suites.multi_suite],
     "wrap": [suites.wrap_suite],
+    "large": [suites.large_suite],
 }
 
 
@@ -279,10 +280,10 @@ def matches(finding, pid, flag, facts):
 CONC_E1 = ["counter_pulls", "counter_3t", "ticket_pulls", "ticket_3t"]
 
 PLANS = {
-    "C01": dict(e1=CONC_E1 + ["counter_comp", "ticket_comp"], inv=["Inv_C01"], bundles=["core"]),
-    "C02": dict(e1=CONC_E1 + ["counter_comp", "ticket_comp"], inv=["Inv_C02", "Inv_TicketIsPosition"], bundles=["core"]),
-    "C03": dict(e1=CONC_E1 + ["ticket_owner"], inv=["Inv_C03"], bundles=["core"], zst=True),
-    "C04": dict(e1=CONC_E1 + ["counter_skipq"], inv=["Inv_C04"], bundles=["core"]),
+    "C01": dict(e1=CONC_E1 + ["counter_comp", "ticket_comp"], inv=["Inv_C01"], bundles=["core", "large"]),
+    "C02": dict(e1=CONC_E1 + ["counter_comp", "ticket_comp"], inv=["Inv_C02", "Inv_TicketIsPosition"], bundles=["core", "large"]),
+    "C03": dict(e1=CONC_E1 + ["ticket_owner"], inv=["Inv_C03"], bundles=["core", "large"], zst=True),
+    "C04": dict(e1=CONC_E1 + ["counter_skipq"], inv=["Inv_C04"], bundles=["core", "large"]),
     "C05": dict(e1=CONC_E1 + ["counter_skipq", "ticket_skip", "ticket_query", "ticket_revive"], inv=["Inv_C05", "Inv_NoWrap"], bundles=["core", "panic"], revive=True),
     "C06": dict(e1=["counter_skipq", "counter_3t", "counter_range", "ticket_skip", "ticket_3t", "ticket_owner"],
                 inv=["Inv_C06", "Inv_C01", "Inv_C02", "Inv_C04"], bundles=["core"],
@@ -293,7 +294,7 @@ PLANS = {
     "C08": dict(e1=["counter_own_vec", "counter_own_arr", "counter_owner"], inv=["Inv_C08", "Inv_OwnEnd"], bundles=["core", "panic"], only=lambda f: f["consuming"]),
     "C09": dict(e1=["counter_pulls", "counter_skipq", "counter_comp", "counter_3t", "ticket_pulls", "ticket_skip", "ticket_comp", "ticket_3t", "ticket_query"],
                 inv=["Inv_C09_LockFree"], bundles=["core", "freeze"], deadlock=True, revive=True),
-    "C10": dict(e1=["counter_owner", "counter_range", "ticket_owner"], inv=["Inv_C10"], bundles=["core"]),
+    "C10": dict(e1=["counter_owner", "counter_range", "ticket_owner"], inv=["Inv_C10"], bundles=["core", "large"]),
     "C11": dict(e1=["counter_skipq", "counter_owner", "counter_3t", "ticket_skip", "ticket_query", "ticket_owner"], inv=["Inv_C11"], bundles=["core"]),
     "C12": dict(e1=["counter_comp", "ticket_comp"], inv=["Inv_C12", "Inv_C01", "Inv_C02"], bundles=["core", "panic"],
                 extra_flags={"comp": ["NoDup", "NoLoss", "Index", "Hang"]}),
